@@ -432,7 +432,22 @@ impl LightClientProtocol {
                         })
                         .unwrap_or_default()
                 });
-                Some(fork_number)
+                // The reorg headers belong to the previous prove state of this peer. When another
+                // peer has moved the storage to the new chain already, they are older than all
+                // remembered headers, but the new last headers contain the stored last header:
+                // the storage is not on a fork.
+                let prev_last_hash = prev_last_header.calc_header_hash();
+                let is_stored_on_new_chain = fork_number.is_none()
+                    && new_prove_state
+                        .get_last_headers()
+                        .iter()
+                        .chain(Some(new_prove_state.get_last_header().header()))
+                        .any(|header| header.hash() == prev_last_hash);
+                if is_stored_on_new_chain {
+                    None
+                } else {
+                    Some(fork_number)
+                }
             };
             if let Some(fork_number) = fork_number_opt {
                 if let Some(to_number) = fork_number {
